@@ -10,6 +10,33 @@ from ..sym import Sym, fmt, atoms
 SCRATCH = "resizer::get_temp_image_from_buffer"
 
 
+def band_pattern(f, sym):
+    """does resample_convolution premultiply only a band of rows (sub-views of the source and
+    of the scratch image)?  None: no; 'unscaled': the band's margin is derived from the filter
+    support without the scale factor (the kernel radius is support * scale when down-scaling);
+    'other': a band whose margin is not recognised"""
+    mul = [c for c in f.calls() if c.name.endswith("multiply_alpha_typed")]
+    if not mul:
+        return None
+    band = False
+    for c in mul:
+        for a in c.args[1:3]:
+            s = fmt(sym.operand(a, (c.bb, "term")))
+            if re.search(r"from_ref|from_mut_ref|split_by_height|TypedCropped|::new@", s):
+                band = True
+    if not band:
+        return None
+    txt = ""
+    for i, l in enumerate(f.locals):
+        for (bb, j, rv, w) in f.defs().get(i, []):
+            txt += " " + fmt(sym.rvalue(rv, bb, (bb, j)))
+    margins = re.findall(r"ceil\([^()]*(?:\([^()]*\))*[^()]*\)", txt)
+    sup = [m for m in margins if "get_filter_func" in m or "support" in m]
+    if sup and not any(("Div" in m and "height" in m) or "scale" in m for m in sup):
+        return "unscaled"
+    return "other"
+
+
 def write_before_read(rep, prog, rule):
     rep.rule(rule, "every scratch image obtained from get_temp_image_from_buffer (contents of a "
              "previous call) is handed to a must-write operation as its destination before any "
@@ -62,7 +89,17 @@ def write_before_read(rep, prog, rule):
                 continue
             bad = [r for r in readers if not any(dom.dominates(w.bb, r.bb) and w.bb != r.bb
                                                  for w in writers)]
-            if bad:
+            bp = band_pattern(f, Sym(f)) if bad and f.name.endswith("resample_convolution") else None
+            if bad and bp == "other":
+                rep.unk(rule, key, bad[0].at, "scratch image `%s` is filled band-wise through "
+                        "sub-views; whether the band covers everything the kernels read is not "
+                        "decided" % nm)
+            elif bad and bp == "unscaled":
+                rep.bad(rule, key, bad[0].at, "scratch image `%s` is premultiplied only in a band "
+                        "whose margin is the filter support without the scale factor: when "
+                        "down-scaling the kernel reaches support * scale rows beyond the crop box "
+                        "and reads rows that still hold the stale content of an earlier resize" % nm)
+            elif bad:
                 rep.bad(rule, key, bad[0].at, "scratch image `%s` (stale content of an earlier "
                         "resize) is read by %s before any writer has filled it" % (nm, bad[0].name))
             else:
@@ -188,9 +225,16 @@ def sizing(rep, prog, rule):
             rep.ok(rule, "premultiply", s.at, "scratch (%s, %s) = size of the multiplied source"
                    % (fmt(a[1]), fmt(a[2])))
         else:
-            rep.bad(rule, "premultiply", s.at, "premultiply scratch is (%s, %s) but "
-                    "multiply_alpha_typed reads %s" % (fmt(a[1]), fmt(a[2]),
-                                                       fmt(src) if src else "?"))
+            bp = band_pattern(f, sym)
+            if bp == "other":
+                rep.unk(rule, "premultiply", s.at, "only a band of the source is premultiplied; "
+                        "whether it covers everything the kernels read is not decided")
+            else:
+                rep.bad(rule, "premultiply", s.at, "premultiply scratch is (%s, %s) but "
+                        "multiply_alpha_typed reads %s%s" % (
+                            fmt(a[1]), fmt(a[2]), fmt(src)[:80] if src else "?",
+                            " (a band whose margin ignores the scale of the kernel)"
+                            if bp == "unscaled" else ""))
 
 
 BUF_WORDS = ("alpha_buffer", "convolution_buffer", "super_sampling_buffer")
